@@ -229,6 +229,8 @@ func BinOp(op token.Token, x, y Value, t types.Type) Value {
 		if isZero(x) || Equal(x, y) {
 			return Const{V: constant.MakeInt64(0), T: t}
 		}
+		// canonical form: x &^ y == x & ^y
+		return BinOp(token.AND, x, UnOp(token.XOR, y, t), t)
 	case token.MUL:
 		if isZero(y) || isZero(x) {
 			if isInteger(t) {
